@@ -67,9 +67,15 @@ def snap(obj):
     if _depth[0] < 4 and hasattr(obj, "__dict__") and type(obj).__module__.startswith("grid."):
         _depth[0] += 1
         try:
+            # PUBLIC data only (what the caller put in and can read back): private attributes may be lazily filled
+            # caches, which are not the caller's data
             items = {}
-            for k, v in vars(obj).items():
-                if v is None or k in ("_kdtree",):
+            for k in PUBLIC_DATA:
+                try:
+                    v = getattr(obj, k, None)
+                except Exception:
+                    continue
+                if v is None or callable(v) or inspect.isgenerator(v):
                     continue
                 if isinstance(v, (np.ndarray, list, tuple, dict, int, float, str, bool, np.generic)) or type(v).__module__.startswith("grid."):
                     items[k] = snap(v)
@@ -80,6 +86,8 @@ def snap(obj):
 
 
 _depth = [0]
+PUBLIC_DATA = ("points", "weights", "indices", "degrees", "center", "rgrid", "domain", "atcoords", "atnums", "aim_weights",
+               "atweights", "origin", "axes", "shape", "realvecs", "size", "rmin", "rmax", "R", "grid_list")
 
 
 def differs(before, after):
